@@ -397,6 +397,12 @@ package transport
 // one operation per id at a time: registering a cancel function must not replace the one of an operation that is
 // still running (it could no longer be stopped, and its results and completion would interleave with the new one's)
 //@   at `assign c.active[*]` requires @C11 c.active[idx] == nil
+// every operation that is dispatched was registered under its id first (with its own cancel function): otherwise a
+// stop for it, or closing the connection, cannot cancel it - whatever kind of operation it is
+//@   ghost registered = false
+//@   at! `assign c.active[*]` ghost registered = true
+//@   at! `assign c.active[*]` requires idx == msg.id
+//@   callsite DispatchOperation: requires registered
 
 // ---------------------------------------------------------------- C09: status codes and content negotiation
 //@ func statusFor [C09]
@@ -466,8 +472,6 @@ package transport
 //@ trusted (messageExchanger).NextMessage() (m, err)
 //@   nopanic
 //@ trusted (messageExchanger).Send(m) (err)
-//@   modifies nothing
-//@ trusted (*wsConnection).handlePossibleError(err, isReadError)
 //@   modifies nothing
 //@ trusted (*wsConnection).sendConnectionError(format, args)
 //@ trusted (*wsConnection).close(closeCode, message)
@@ -816,3 +820,23 @@ package transport
 //@   stable wsConnection.pingPongTicker wsConnection.conn
 //@   requires c != nil && c.pingPongTicker != nil && c.conn != nil
 //@   safe
+
+// handlePossibleError is called by write() while the connection mutex is held: it reports to the user's ErrorFunc
+// and must not take the mutex itself, directly or through close/write/sendError/complete (the mutex is not
+// reentrant: the connection's goroutines would never end).
+//@ trusted field:github.com/99designs/gqlgen/graphql/handler/transport.Websocket.ErrorFunc(ctx, err)
+//@   modifies nothing
+//@ trusted field:*github.com/99designs/gqlgen/graphql/handler/transport.wsConnection.ErrorFunc(ctx, err)
+//@   modifies nothing
+//@ func (*wsConnection).handlePossibleError [C11,C10]
+//@   requires c != nil
+//@   safe
+//@   callsite Lock: requires false
+//@   callsite close: requires false
+//@   callsite write: requires false
+//@   callsite sendError: requires false
+//@   callsite sendConnectionError: requires false
+//@   callsite complete: requires false
+//@   ensures err == nil ==> calls(ErrorFunc) == 0
+//@   ensures calls(ErrorFunc) <= 1
+//@   modifies nothing
